@@ -1333,6 +1333,13 @@ func bWhere(intp *Interpreter) error {
 }
 
 func equal(a, b Object) (bool, error) {
+	if ai, ok := a.(Integer); ok {
+		if bi, ok := b.(Integer); ok {
+			// compare integers exactly (float64 cannot tell large ones apart)
+			return ai == bi, nil
+		}
+	}
+
 	_, aIsDict := a.(Dict)
 	_, bIsDict := b.(Dict)
 	if aIsDict && bIsDict {
